@@ -226,14 +226,39 @@ def parseView (d : String) : Option View := do
 
 def setAt {α : Type} (l : List α) (i : Nat) (a : α) : List α := l.set i a
 
-/-- returns `ok` or `bad op=<index> tok=<token> clause=<absent|read|keep|parse>` for the FIRST failing op -/
-def judgeOps (ttl : Int) : List String → List String → Nat → List View → Int → String
-  | [], [], _, _, _ => "ok"
-  | tok :: toks, out :: outs, idx, views, now =>
+/-- the tombstones among the messages an op put into the log: `+T(k0/0,100,0)` ↦ some (key, issuer), others ↦ none -/
+def logMarkers (res : String) : List (Option (Nat × Nat)) :=
+  ((res.splitOn "+").drop 1).map fun m =>
+    if m.startsWith "T(" then
+      let body := (m.drop 2).toString
+      let k := key? ((body.splitOn "/").headD "")
+      let by' := (((body.splitOn ",").getLast?.getD "").splitOn ")").headD ""
+      match k, by'.toNat? with
+      | some k, some b => some (k, b)
+      | _, _ => none
+    else none
+
+/-- keys whose tombstone this op delivers to replica `r` (a peer tombstone issued by `r` itself is ignored) -/
+def deliveredKeys (f : List String) (r : Nat) (log : List (Option (Nat × Nat))) : List Nat :=
+  let fromLog := fun (i : String) =>
+    match i.toNat?.bind (log[·]?) with
+    | some (some (k, b)) => if b == r then [] else [k]
+    | _ => []
+  match f with
+  | ["d", _, k] => (key? k).toList
+  | ["t", _, k, _, b] => if b.toNat? == some r then [] else (key? k).toList
+  | ["s", _, i] => fromLog i
+  | ["b", _, is] => (is.splitOn ",").flatMap fromLog
+  | _ => []
+
+/-- returns `ok` or `bad op=<index> tok=<token> clause=<absent|read|keep|record|parse>` for the FIRST failing op -/
+def judgeOps (ttl : Int) : List String → List String → Nat → List View → Int → List (Option (Nat × Nat)) → String
+  | [], [], _, _, _, _ => "ok"
+  | tok :: toks, out :: outs, idx, views, now, log =>
     let f := tok.splitOn ":"
     if f.head? = some "w" then
-      judgeOps ttl toks outs (idx + 1) views (now + ((f.getD 1 "").toInt?.getD 0))
-    else if out = "bad-op" then judgeOps ttl toks outs (idx + 1) views now
+      judgeOps ttl toks outs (idx + 1) views (now + ((f.getD 1 "").toInt?.getD 0)) log
+    else if out = "bad-op" then judgeOps ttl toks outs (idx + 1) views now log
     else
       let who := if f.head? = some "a" then (f.getD 2 "") else (f.getD 1 "")
       match who.toNat?, out.splitOn "@" with
@@ -250,17 +275,18 @@ def judgeOps (ttl : Int) : List String → List String → Nat → List View →
           if !absentOK after then s!"bad op={idx} tok={tok} clause=absent"
           else if !readOK before kind then s!"bad op={idx} tok={tok} clause=read"
           else if !keepOK ttl before after kind then s!"bad op={idx} tok={tok} clause=keep"
-          else judgeOps ttl toks outs (idx + 1) (views.set i after) now
+          else if !recordOK after (deliveredKeys f i log) then s!"bad op={idx} tok={tok} clause=record"
+          else judgeOps ttl toks outs (idx + 1) (views.set i after) now (log ++ logMarkers res)
         | _, _ => s!"bad op={idx} tok={tok} clause=parse"
       | _, _ => s!"bad op={idx} tok={tok} clause=parse"
-  | _, _, idx, _, _ => s!"bad op={idx} tok=- clause=parse wrong number of results"
+  | _, _, idx, _, _, _ => s!"bad op={idx} tok=- clause=parse wrong number of results"
 
 def judge (line : String) : String :=
   let (c, o) := splitTab line
   match parseHead (words c) with
   | none => "ok"
   | some (n, ttl, ops) =>
-    judgeOps ttl ops (words o) 0 ((List.range n).map fun _ => ⟨[], []⟩) 100
+    judgeOps ttl ops (words o) 0 ((List.range n).map fun _ => ⟨[], []⟩) 100 []
 
 def run (args : List String) : IO UInt32 := runWith args model judge
 
